@@ -3,6 +3,7 @@ package c09
 import (
 	"encoding/binary"
 	"fmt"
+	"runtime"
 	"sort"
 	"strings"
 
@@ -40,6 +41,9 @@ import (
 
 var scriptFuncs []interop.Function
 
+// yieldSyscall: an interop name of the real table, served here by runtime.Gosched().
+const yieldSyscall = interopnames.SystemRuntimePlatform
+
 func init() {
 	for name, f := range map[string]func(*interop.Context) error{
 		interopnames.SystemIteratorNext:              iterator.Next,
@@ -55,6 +59,9 @@ func init() {
 		interopnames.SystemStorageLocalGet:           istorage.LocalGet,
 		interopnames.SystemStorageLocalPut:           istorage.LocalPut,
 		interopnames.SystemStorageLocalDelete:        istorage.LocalDelete,
+		// round 3: not a storage call at all - it lets the scan goroutine of a
+		// preceding Find run (or not) before the script goes on
+		yieldSyscall: func(*interop.Context) error { runtime.Gosched(); return nil },
 	} {
 		scriptFuncs = append(scriptFuncs, interop.Function{ID: interopnames.ToID([]byte(name)), Name: name, Func: f})
 	}
@@ -171,6 +178,10 @@ type scriptCase struct {
 	ActKey   string `json:"action_key,omitempty"`
 	ActVal   int    `json:"action_value,omitempty"`
 	PutLocal bool   `json:"put_via_local,omitempty"`
+	// round 3 (sub-family early-action): the action sits between Find and the first Next
+	ActWhen string `json:"action_moment,omitempty"` // "" = after the first Value | before-first-next
+	ActKey2 string `json:"action_deleted_key,omitempty"`
+	Yield   string `json:"gosched,omitempty"` // "" | before-action | after-action
 }
 
 func (c scriptCase) String() string {
@@ -185,7 +196,16 @@ func (c scriptCase) String() string {
 	if c.Item != "" {
 		s += " " + c.Item
 	}
-	if c.Action != "" {
+	if c.Action != "" && c.ActWhen != "" {
+		s += fmt.Sprintf(" then, %s, %s(%q", c.ActWhen, c.Action, c.ActKey)
+		if c.Action == "PutDelete" {
+			s += fmt.Sprintf(",%q", c.ActKey2)
+		}
+		s += ")"
+		if c.Yield != "" {
+			s += " gosched " + c.Yield
+		}
+	} else if c.Action != "" {
 		s += fmt.Sprintf(" then %s(%q)", c.Action, c.ActKey)
 	}
 	return s
@@ -310,6 +330,15 @@ func (c scriptCase) build() []byte {
 	if c.Mut != "" && c.Moment == "after-find" {
 		a.emitMut(c)
 	}
+	if c.Action != "" && c.ActWhen == "before-first-next" {
+		if c.Yield == "before-action" {
+			a.sys(yieldSyscall)
+		}
+		a.emitAction(c)
+		if c.Yield == "after-action" {
+			a.sys(yieldSyscall)
+		}
+	}
 	// first scan
 	a.label("loop1")
 	a.op(opcode.LDSFLD1)
@@ -336,7 +365,7 @@ func (c scriptCase) build() []byte {
 			a.emitMut(c)
 		}
 	}
-	if c.Action != "" {
+	if c.Action != "" && c.ActWhen == "" {
 		a.once(opcode.LDSFLD3, opcode.STSFLD3, func() { a.emitAction(c) })
 	}
 	a.jmp(opcode.JMPL, "loop1")
@@ -378,6 +407,14 @@ func (c scriptCase) build() []byte {
 }
 
 func (a *asm) emitAction(c scriptCase) {
+	if c.Action == "PutDelete" {
+		p, d := c, c
+		p.Action = "Put"
+		d.Action, d.ActKey = "Delete", c.ActKey2
+		a.emitAction(p)
+		a.emitAction(d)
+		return
+	}
 	switch c.Action {
 	case "Put":
 		a.bytes(vals[c.ActVal])
@@ -471,11 +508,16 @@ func (c scriptCase) run(s *rstack, m *model) (fails []scriptFail, outcome string
 		return nil, "skipped(undeserializable value in range)"
 	}
 	touched := ""
-	if c.Action != "" && len(exp1) > 0 { // the action sits behind the first Value: an empty scan never gets there
+	early := c.ActWhen == "before-first-next"
+	if c.Action != "" && (early || len(exp1) > 0) { // behind the first Value an empty scan never gets to the action
 		touched = baseS + c.ActKey
-		if c.Action == "Put" {
+		switch c.Action {
+		case "Put":
 			m.ly[t-1][touched] = vals[c.ActVal]
-		} else {
+		case "PutDelete":
+			m.ly[t-1][touched] = vals[c.ActVal]
+			m.ly[t-1][baseS+c.ActKey2] = nil
+		default:
 			m.ly[t-1][touched] = nil
 		}
 	}
@@ -498,7 +540,18 @@ func (c scriptCase) run(s *rstack, m *model) (fails []scriptFail, outcome string
 	got1, got2 := got[:sep], got[sep+1:]
 	outcome = fmt.Sprintf("%dres", min(len(exp1), 3))
 	inRange := touched != "" && strings.HasPrefix(touched, baseS+c.User)
-	if inRange && len(exp1) > 0 {
+	if early {
+		// the iterator exists since Find returned: whatever the script writes before its
+		// first Next, the scan answers for the content of that moment - exactly
+		if inRange || (c.Action == "PutDelete" && strings.HasPrefix(c.ActKey2, c.User)) {
+			outcome += ",written-in-range-before-first-next"
+		} else {
+			outcome += ",written-beside-range-before-first-next"
+		}
+		if strings.Join(want1, " ") != strings.Join(got1, " ") {
+			fails = append(fails, scriptFail{"scan-not-for-the-moment-of-find", "[" + strings.Join(want1, " ") + "]", "[" + strings.Join(got1, " ") + "]"})
+		}
+	} else if inRange && len(exp1) > 0 {
 		// the range was written while it was being scanned: only the untouched
 		// keys are judged (each exactly once, in order, right value); the touched
 		// key may come with its old or its new value or not at all, but once.
@@ -638,6 +691,49 @@ func scriptCases(sc *scen, thorough bool) (ro, rw []scriptCase) {
 							c.Mut, c.Moment = "SETITEM-last", "after-find"
 						}
 						rw = append(rw, c)
+					}
+				}
+			}
+		}
+	}
+	// round 3, early-action: the write sits between Find and the FIRST Next; the
+	// scan answers exactly for the content at Find.
+	//   prefix x {ByteString, Buffer+SETITEM after Find} x 5 option sets x direction x
+	//   {Put new key in range, overwrite, Delete in range, Put outside, Delete the new key,
+	//    Put + Delete of two keys in range} x Gosched {none, before the action, after it}
+	for ui, u := range users {
+		var inside []string
+		for _, s := range sc.Suffixes {
+			if strings.HasPrefix(s, u) {
+				inside = append(inside, s)
+			}
+		}
+		if len(inside) == 0 {
+			continue
+		}
+		acts := []scriptCase{
+			{Action: "Put", ActKey: u + "\x7fnew", ActVal: 2},
+			{Action: "Put", ActKey: inside[len(inside)-1], ActVal: 0},
+			{Action: "Delete", ActKey: inside[0]},
+			{Action: "Put", ActKey: "\x01x", ActVal: 2},
+			{Action: "Delete", ActKey: u + "\x7fnew"},
+			{Action: "PutDelete", ActKey: inside[0], ActVal: 2, ActKey2: inside[len(inside)-1]},
+			{Action: "PutDelete", ActKey: inside[len(inside)-1], ActVal: 0, ActKey2: u + "\x7fnew"},
+		}
+		for _, oi := range []int{0, 2, 3, 4, 8} {
+			for _, bw := range []bool{false, true} {
+				for pi, pt := range []string{pfxByteString, pfxBuffer} {
+					for xi, act := range acts {
+						for yi, y := range []string{"", "before-action", "after-action"} {
+							c := act
+							c.Sub, c.API, c.User, c.PfxType, c.Opt, c.Bwd = "early-action", scriptAPIs[(ui+oi+yi)%3], u, pt, oi, bw
+							c.ActWhen, c.Yield = "before-first-next", y
+							c.PutLocal = (xi+pi)%2 == 1
+							if pt == pfxBuffer {
+								c.Mut, c.Moment = "SETITEM-last", "after-find"
+							}
+							rw = append(rw, c)
+						}
 					}
 				}
 			}
